@@ -328,6 +328,10 @@ def load_model(model_folder: str, model_name: str, compiler_options: Dict[str, s
                 raise InvalidCacheError("Cache generated for incompatible CasADi version")
             else:
                 raise
+        except (EOFError, pickle.UnpicklingError) as e:
+            # Empty or truncated file: save_model() was interrupted, or another
+            # process is still writing it.
+            raise InvalidCacheError("Cache file is incomplete") from e
 
         if db["version"] != __version__:
             raise InvalidCacheError("Cache generated for a different version of pymoca")
